@@ -62,8 +62,18 @@ const maxDeaths = 25
 
 var deaths = 0
 
-// callWorker sends one request and waits for one line.
+// callWorker sends one request and waits for one line.  A case that does not answer in time is
+// run once more in a fresh worker with a longer limit before it counts as a timeout (a loaded
+// machine must not look like a hanging interpreter).
 func callWorker(req workerReq) (m map[string]any, death string) {
+	m, death = callWorkerOnce(req, caseTimeout)
+	if death == "timeout" {
+		m, death = callWorkerOnce(req, 4*caseTimeout)
+	}
+	return m, death
+}
+
+func callWorkerOnce(req workerReq, limit time.Duration) (m map[string]any, death string) {
 	if deaths >= maxDeaths {
 		return map[string]any{"stderr": "not run: 25 worker processes already ended abnormally in this run"}, "not-run-after-deaths"
 	}
@@ -109,7 +119,7 @@ func callWorker(req workerReq) (m map[string]any, death string) {
 			return nil, "badreply"
 		}
 		return m, ""
-	case <-time.After(caseTimeout):
+	case <-time.After(limit):
 		wp.kill()
 		wp = nil
 		return nil, "timeout"
